@@ -14,7 +14,7 @@ RULE = ('(a) random circuits through the public API over all gate types/arities,
         'before definition), random letter case of operators, extra spaces, comments, blank lines, BUFF/vdd '
         'aliases; (c) malformed lines for the error classes; non-trivial = >=1 non-input gate; distinct by text')
 ASSUMPTIONS = ['labels are bench identifiers: non-empty ASCII words over [A-Za-z0-9_.@\\[\\]-] (no spaces, '
-               'parentheses, commas, =, #); leading/trailing-space lines and CRLF are outside the layouts',
+               'parentheses, commas, =, #); CRLF, whitespace-only lines and declaration lines with leading spaces are outside the layouts (the parser rejects or misreads them)',
                'file IO (save_to_file/from_bench_file) is exercised through a temp file; the model sees the text']
 TRUSTED = ['search oracle: Circuit.__eq__ on the implementation (gates as maps with operand order, inputs, '
            'outputs) and denotation comparison through the real evaluator (certified in C01)']
@@ -40,8 +40,11 @@ def py_parse(text):
 def layout(rng, j):
     """a random textual layout of the netlist j (what the text denotes = j)"""
     lines = []
+    dpad = lambda: rng.choice(['', '', ' ', '  ', ') ', ' )'])
+    junk = lambda: rng.choice(['', '', '', ' ', '  # c', ' junk', ') x = AND(', '  '])
+    lead = lambda: ' ' * rng.choice([0, 0, 0, 1, 2])
     for l in j['inputs']:
-        lines.append(('decl', rng.choice(['INPUT', 'input', 'Input']) + f'({l})'))
+        lines.append(('decl', rng.choice(['INPUT', 'input', 'Input', 'iNpUt']) + f'({dpad().replace(")", "")}{l}{dpad()})'))
     for l, t, ops in j['gates']:
         if t == 'INPUT':
             continue
@@ -50,11 +53,11 @@ def layout(rng, j):
         sp = lambda: ' ' * rng.choice([0, 1, 1, 2])
         if t == 'ALWAYS_TRUE' and not ops and rng.random() < 0.4:
             body = rng.choice(['vdd', 'VDD', 'Vdd'])
-            lines.append(('gate', f'{l}{sp()}={sp()}{body}'))
+            lines.append(('gate', f'{lead()}{l}{sp()}={sp()}{body}{junk()}'))
         else:
             args = (sp() + ',' + sp()).join(ops)
-            lines.append(('gate', f'{l}{sp()}={sp()}{kw}{sp()}({sp()}{args}{sp()})'))
-    outs = [('decl', rng.choice(['OUTPUT', 'output', 'Output']) + f'({l})') for l in j['outputs']]
+            lines.append(('gate', f'{lead()}{l}{sp()}={sp()}{kw}{sp()}({sp()}{args}{sp()}){junk()}'))
+    outs = [('decl', rng.choice(['OUTPUT', 'output', 'Output', 'oUtPuT']) + f'({dpad().replace(")", "")}{l}{dpad()})') for l in j['outputs']]
     # inputs keep their relative order (it is the input order); gates/outputs may be anywhere
     body = [x for x in lines if x[0] == 'gate']
     rng.shuffle(body)
@@ -65,7 +68,7 @@ def layout(rng, j):
     for k, (o, p) in enumerate(zip(outs, pos_sorted)):
         merged.insert(p + k, o[1])
     # input order must be preserved: re-extract and verify; else fall back to plain order
-    ins_seen = [ln[ln.index('(') + 1:-1] for ln in merged if ln.upper().startswith('INPUT(')]
+    ins_seen = [ln[ln.index('(') + 1:].strip(') ') for ln in merged if ln.upper().startswith('INPUT(')]
     if ins_seen != j['inputs']:
         merged = [x[1] for x in lines if x[0] == 'decl'] + [g[1] for g in body] + [o[1] for o in outs]
     out = []
